@@ -57,14 +57,14 @@ def Within (ct : ClassTable) (P : (Oid → Option Obj) → ClassInfo → Obj →
 * `Fitness.__deepcopy__` copies `wvalues` only — "assumes … the fitness does not contain any other
   object" (base.py:255-257): no `dict_inst`, no instance attributes, numeric `wvalues`;
   `ConstrainedFitness` additionally `constraint_violation` and nothing else;
-* array buffers hold numbers; a tree's items are immutable leaf node objects. -/
+* `array.array` buffers hold numbers (numpy individuals may hold anything: their elements are deep-copied); a tree's items are immutable leaf node objects. -/
 def CopyOK (objs : Oid → Option Obj) (ci : ClassInfo) (o : Obj) : Prop :=
   (ci.kind.initOnCopy = true → ∀ p ∈ ci.dictInst, (lookup p.1 o.attrs).isSome = true) ∧
   (ci.kind = .fitness → ci.dictInst = [] ∧ (∀ k, lookup k o.attrs = none) ∧
       ∀ c ∈ o.items, c.isAtom = true) ∧
   (ci.kind = .cfitness → ci.dictInst = [] ∧ (lookup cvName o.attrs).isSome = true ∧
       (∀ k, k ≠ cvName → lookup k o.attrs = none) ∧ ∀ c ∈ o.items, c.isAtom = true) ∧
-  ((ci.kind = .nparr ∨ ci.kind = .pyarr) → ∀ c ∈ o.items, c.isAtom = true) ∧
+  (ci.kind = .pyarr → ∀ c ∈ o.items, c.isAtom = true) ∧
   (ci.kind = .tree → ∀ c ∈ o.items, ImmLeaf objs c)
 
 /-- `InstOf ct c c'`: instantiating the class `c` instantiates the class `c'` — `c` itself, or a
